@@ -137,6 +137,12 @@ class Listener(metaclass=ABCMeta):
     def __call__(self, orb):  # pragma: no cover
         pass
 
+    def _forward(self, orb):
+        """True if the iteration goes forward in time (``orb`` is later than the
+        previous sample)
+        """
+        return self.prev is None or orb.date >= self.prev.date
+
     def clear(self):
         """Clear the state of the listener, in order to make a new iteration"""
         self.prev = None
@@ -189,12 +195,13 @@ class LightListener(Listener):
         self.frame = frame
 
     def info(self, orb):
+        # orb is on the far side of the crossing, in the direction of the iteration
+        entry = (self(orb) <= 0) == self._forward(orb)
+
         if self.type == self.UMBRA:
-            return LightEvent(self, "Umbra entry" if self(orb) <= 0 else "Umbra exit")
+            return LightEvent(self, "Umbra entry" if entry else "Umbra exit")
         else:
-            return LightEvent(
-                self, "Penumbra entry" if self(orb) <= 0 else "Penumbra exit"
-            )
+            return LightEvent(self, "Penumbra entry" if entry else "Penumbra exit")
 
     def __call__(self, orb):
         """
@@ -342,9 +349,8 @@ class ApsideListener(Listener):
         self.frame = frame
 
     def info(self, orb):
-        return ApsideEvent(
-            self, "Periapsis" if self(orb) > self(self.prev) else "Apoapsis"
-        )
+        increasing = (self(orb) > self(self.prev)) == self._forward(orb)
+        return ApsideEvent(self, "Periapsis" if increasing else "Apoapsis")
 
     def __call__(self, orb):
         orb = orb.copy(form="spherical", frame=self.frame)
@@ -472,7 +478,8 @@ class StationMaskListener(StationSignalListener):
         self.station = station
 
     def info(self, orb):
-        return self.event(self, "AOS" if self(orb) > self(self.prev) else "LOS")
+        rising = (self(orb) > self(self.prev)) == self._forward(orb)
+        return self.event(self, "AOS" if rising else "LOS")
 
     def check(self, orb):
         # Override to disable the computation when the object is not
